@@ -1,6 +1,6 @@
 From Coq Require Import List NArith ZArith Bool Lia Arith String.
 From Dznpy Require Import Base.PyStr Base.Result Base.Json Model.TextGen Model.Scoping Model.PortSelection Model.CppGen
-  Model.Ast Model.SupportFiles Model.Builder Proofs.C03Facts.
+  Model.Ast Model.SupportFiles Sem.ShellSem Model.Builder Proofs.C03Facts.
 Import ListNotations.
 
 (* the library's own error types *)
@@ -66,14 +66,20 @@ Proof.
   - intros pr. destruct (pc_mc (cf_ports cfg)); auto with lib.
 Qed.
 
+Lemma lib_formal_params fc itf r e : lib_err (formal_params fc itf r e).
+Proof. unfold formal_params. apply lib_mapM. intros f. apply lib_bind; auto with lib. Qed.
 Lemma lib_formal_args fc itf r e : lib_err (formal_args fc itf r e).
-Proof. unfold formal_args. apply lib_mapM. intros f. apply lib_bind; auto with lib. Qed.
-#[local] Hint Resolve lib_formal_args lib_create_dzn_elements : lib.
+Proof. unfold formal_args. apply lib_bind; [apply lib_formal_params|auto with lib]. Qed.
+#[local] Hint Resolve lib_formal_params lib_formal_args lib_create_dzn_elements : lib.
 
+Lemma lib_in_stmts fc p : lib_err (in_stmts fc p).
+Proof. unfold in_stmts. apply lib_mapM. intros e. apply lib_bind; auto with lib. Qed.
+Lemma lib_out_stmts fc p : lib_err (out_stmts fc p).
+Proof. unfold out_stmts. apply lib_mapM. intros e. apply lib_bind; auto with lib. Qed.
 Lemma lib_reroute_in fc d p : lib_err (reroute_in_events fc d p).
-Proof. unfold reroute_in_events. apply lib_bind; [|auto with lib]. apply lib_mapM. intros e. apply lib_bind; auto with lib. Qed.
+Proof. unfold reroute_in_events. apply lib_bind; [apply lib_in_stmts|auto with lib]. Qed.
 Lemma lib_reroute_out fc d p : lib_err (reroute_out_events fc d p).
-Proof. unfold reroute_out_events. apply lib_bind; [|auto with lib]. apply lib_mapM. intros e. apply lib_bind; auto with lib. Qed.
+Proof. unfold reroute_out_events. apply lib_bind; [apply lib_out_stmts|auto with lib]. Qed.
 Lemma lib_reroute_mc_out fc p : lib_err (reroute_multiclient_out_events fc p).
 Proof. unfold reroute_multiclient_out_events. apply lib_bind; [|auto with lib]. apply lib_mapM. intros e. apply lib_bind; auto with lib. Qed.
 Lemma lib_claim fc p m : lib_err (claim_snippet fc p m).
